@@ -165,7 +165,9 @@ claim("C03",
       "without address), segment_statements (VRAM start symbol = ADDR(.seg) written before, VRAM end after both end alignments), "
       "single_segment_start. Image theorems image_segment_start / image_noload_follows / image_segment_vram: the allocatable output section is recorded "
       "at the value of the requested address expression, or at the location counter rounded up to the start alignment and the alignment of its "
-      "contents; the noload part lies behind it; the VRAM end symbol is the location counter behind the noload part rounded up to the end alignment." + IMG,
+      "contents; the noload part lies behind it; the VRAM end symbol is the location counter behind the noload part rounded up to the end alignment. "
+      "Props/C03Hex.lean: parseHex_toHex8 / operand_fixed_vram / fixed_vram_request (the 0x%08X literal of fixed_vram evaluates to the value it was "
+      "printed from, for every number)." + IMG,
       "Lean 4 proofs of the emitted address statements + real-link oracle for their meaning", "DESIGN.md §8 C03")
 claim("C04",
       "Lean theorems (Props/C04.lean): sections_rom — in every multi-segment script the statements touching __romPos together with all output "
